@@ -22,7 +22,7 @@ BOUNDS = {'quick': 'potentials/model <= 3; 6 model grids (nr in 8..100); lattice
 
 def cases(tier):
     out = []
-    for c in PK.pair_cases(tier, mult4=True):
+    for c in PK.pair_cases(tier, mult4=True, si=True):
         c['spelling'] = 'DL_POLY' if (c['nr'] // 4 + len(c['pots'])) % 2 else 'DLPOLY'
         out.append(c)
     bad = [n for n in range(3, 42) if n % 4]
